@@ -15,6 +15,7 @@ import (
 	"github.com/bufbuild/protocompile/linker"
 	"github.com/pentops/j5/internal/j5s/protobuild"
 	"github.com/pentops/j5/internal/j5s/protoprint"
+	"github.com/pentops/j5/internal/source"
 	"github.com/pentops/log.go/log"
 	"google.golang.org/protobuf/reflect/protoreflect"
 	"google.golang.org/protobuf/types/descriptorpb"
@@ -28,6 +29,8 @@ type Bundle struct {
 	ListOrder []string
 	// Deps: external dependency files (path -> descriptor) offered to the compiler
 	Deps map[string]*descriptorpb.FileDescriptorProto
+	// ImageDeps: offer Deps through the tool's own DependencySet implementation
+	ImageDeps bool
 }
 
 func NewBundle() *Bundle { return &Bundle{Files: map[string]string{}} }
@@ -106,6 +109,9 @@ func (m mapDeps) GetDependencyFile(name string) (*descriptorpb.FileDescriptorPro
 }
 
 func (b *Bundle) NewPackageSet() (*protobuild.PackageSet, error) {
+	if b.Deps != nil && b.ImageDeps {
+		return protobuild.NewPackageSet(source.ZZVerifImageFiles(b.Deps, nil), b)
+	}
 	if b.Deps != nil {
 		return protobuild.NewPackageSet(mapDeps(b.Deps), b)
 	}
